@@ -58,3 +58,32 @@ pub fn jstr(s: &str) -> String {
 	o.push('"');
 	o
 }
+
+// ---- per-case watchdog: a case that does not finish is reported (hang.txt in the output directory,
+// exit code 3) instead of blocking the whole check until its global timeout
+static WATCH: std::sync::Mutex<Option<(std::time::Instant, String, std::path::PathBuf)>> = std::sync::Mutex::new(None);
+static WATCH_ONCE: std::sync::Once = std::sync::Once::new();
+
+pub fn watch_begin(out: &Out, toks: &[u64]) {
+	let mut line = Vec::new();
+	write_hex_line(&mut line, toks);
+	*WATCH.lock().unwrap() = Some((std::time::Instant::now(), String::from_utf8(line).unwrap(), out.dir.clone()));
+	WATCH_ONCE.call_once(|| {
+		let limit: u64 = std::env::var("VERIF_CASE_TIMEOUT").ok().and_then(|v| v.parse().ok()).unwrap_or(120);
+		std::thread::spawn(move || loop {
+			std::thread::sleep(std::time::Duration::from_secs(2));
+			let g = WATCH.lock().unwrap();
+			if let Some((t0, line, dir)) = g.as_ref() {
+				if t0.elapsed().as_secs() > limit {
+					let _ = std::fs::write(dir.join("hang.txt"), format!("{}\n{}", limit, line));
+					eprintln!("case did not finish within {limit} s");
+					std::process::exit(3);
+				}
+			}
+		});
+	});
+}
+
+pub fn watch_end() {
+	*WATCH.lock().unwrap() = None;
+}
